@@ -155,7 +155,8 @@ def make_solver(mode='tactic'):
     return z3.Solver()
 
 
-def bmc_query(ts, depth, bad_names, stutter_choice, timeout_s=1500, extra_init=None, extra_step=None, any_step=True, mode='tactic'):
+def bmc_query(ts, depth, bad_names, stutter_choice, timeout_s=1500, extra_init=None, extra_step=None, any_step=True, mode='tactic',
+              stuck=None):
     """is some state satisfying one of the named predicates reachable within `depth` steps?
     returns dict(result, seconds, schedule, params, verdict, step)"""
     t0 = time.time()
@@ -168,6 +169,34 @@ def bmc_query(ts, depth, bad_names, stutter_choice, timeout_s=1500, extra_init=N
         for c in extra_init(ts):
             s.add(c)
     steps = range(depth + 1) if any_step else [depth]
+    if stuck is not None:
+        # the final state is a fixed point of every reconcile choice (fault-free, crash-free parameters): the step
+        # relation is instantiated once per choice from S_depth and must give back S_depth
+        steps = [depth]
+        nxt = [ts.mk(v, '%s@NEXT' % n) for n, v in ts.state_leaves]
+        stepf = z3.And([ts.guard] + [g == b for g, b in ts.defs] + ts.base + [nv == pv for nv, pv in zip(nxt, ts.post)])
+        for c in stuck['choices']:
+            sub = []
+            for n, v in ts.state_leaves:
+                sub.append((v, ts.svar(n, v, depth)))
+            for n, v in ts.param_leaves:
+                base = n.split('#')[0]
+                val = stuck['params'].get(base, 0)
+                sub.append((v, z3.BoolVal(bool(val)) if z3.is_bool(v) else z3.BitVecVal(val, v.size())))
+            sub.append((ts.choice, z3.BitVecVal(c, 64)))
+            for g, b in ts.defs:
+                sub.append((g, z3.Bool('%s@probe%d' % (g.decl().name(), c))))
+            known = {v.get_id() for v, _ in sub}
+            for n, v in ts.eng.inputs.items():
+                if is_sym(v) and v.get_id() not in known:
+                    sub.append((v, ts.mk(v, '%s@probe%d' % (n, c))))
+            # next state of the probe = the state itself (ghost monitors excluded from the comparison)
+            for nv, (n, v) in zip(nxt, ts.state_leaves):
+                if any(gh in n for gh in stuck.get('ignore', ())):
+                    sub.append((nv, ts.mk(v, '%s@probe%d' % (n, c))))
+                else:
+                    sub.append((nv, ts.svar(n, v, depth)))
+            s.add(z3.substitute(stepf, *sub))
     targets = []
     for b in bad_names:
         if b.startswith('contract:'):
@@ -214,7 +243,7 @@ def bmc_query(ts, depth, bad_names, stutter_choice, timeout_s=1500, extra_init=N
 def replay_inputs(res, upto=None):
     """inputs of the native VerifRun entry for a BMC model"""
     n = len(res['schedule']) if upto is None else upto
-    inp = {'steps#0': n}
+    inp = {'steps#0': n, 'probe#0': bool(res.get('kind') == 'stuck')}
     for k in range(n):
         inp['choice#%d' % k] = res['schedule'][k]
         for name, v in res['params'][k].items():
@@ -244,9 +273,10 @@ TESTDIR = 'pkg/controller/v2/transaction'
 
 
 def _bmc_worker(args):
-    key, depth, preds, stutter, timeout_s, kind = args
+    key, depth, preds, stutter, timeout_s, kind = args[:6]
+    stuck = args[6] if len(args) > 6 else None
     try:
-        r = bmc_query(_TS[key], depth, preds, stutter, timeout_s)
+        r = bmc_query(_TS[key], depth, preds, stutter, timeout_s, stuck=stuck)
     except Exception as e:
         r = {'result': 'error', 'error': '%s: %s' % (type(e).__name__, e), 'trace': traceback.format_exc()[-2000:],
              'depth': depth, 'preds': list(preds)}
@@ -254,11 +284,11 @@ def _bmc_worker(args):
     return r
 
 
-def write_consts(ctx, name, nt, nx, sync=False, rollback=False, faults=False, crash=False):
+def write_consts(ctx, name, nt, nx, sync=False, rollback=False, faults=False, crash=False, versions=False):
     p = os.path.join(ctx.out, 'consts_%s.go' % name)
     b = lambda x: 'true' if x else 'false'
     open(p, 'w').write('//go:build verif\n\npackage verifv2\n\nconst (\n\tNT = %d\n\tNX = %d\n\tWithSync = %s\n\tWithRollback = %s\n'
-                       '\tWithFaults = %s\n\tWithCrash = %s\n)\n' % (nt, nx, b(sync), b(rollback), b(faults), b(crash)))
+                       '\tWithFaults = %s\n\tWithCrash = %s\n\tWithVersions = %s\n)\n' % (nt, nx, b(sync), b(rollback), b(faults), b(crash), b(versions)))
     return p
 
 
@@ -316,7 +346,16 @@ def run_protocol(ctx, driver, name, cfg, queries, contracts=None, cuts=True, unw
     key = name
     _TS[key] = t
     ch = num_choices(cfg['nt'], cfg['nx'])
-    jobs = [(key, depth, preds, ch['stutter'], timeout_s, kind) for kind, depth, preds in queries]
+    jobs = []
+    for q in queries:
+        kind, depth, preds = q[:3]
+        stuck = None
+        if kind == 'stuck':
+            # reconcile choices only (environment actions are outside prodding); fault/crash free parameters
+            nrec = ch['cfg'] if not cfg.get('sync') else ch['append']
+            stuck = {'choices': list(range(0, nrec)), 'params': {'p.CrashAfter': -1, 'p.DevCode': 0},
+                     'ignore': ('.Crashes', '.Faults')}
+        jobs.append((key, depth, preds, ch['stutter'], timeout_s, kind, stuck))
     # a contract that fails from an arbitrary state is only a violation if the failing step is reachable:
     # ask the bounded model checker for a schedule from the initial state that ends in the failing step
     failing = sorted({ob['label'] for ob in res['obligations'] if ob['result'] == 'sat' and ob['label'].split(':')[0] not in ('unwind', 'bound')})
@@ -406,6 +445,8 @@ def post_protocol(ctx, driver, res, replay_budget=3):
                 reproduced_ = bool(rr) and hitname in (rr.get('failed') or [])
             else:
                 reproduced_ = bool(rr) and hitname in (rr.get('regions') or [])
+                if q['kind'] == 'stuck':
+                    reproduced_ = reproduced_ and 'fixed-point' in (rr.get('regions') or [])
             if reproduced_:
                 key = (res['name'], hitname)
                 ctx.replays_ok += 1
